@@ -430,6 +430,9 @@ func checkLine(cs *Case, m map[string]interface{}, line string, viol func(key, m
 				return // the line is what the text describes
 			}
 		}
+		if sep == "" {
+			tail = strings.TrimPrefix(tail, " ") // fields although none is expected
+		}
 		diagnose(cs, m, tail, want, cands, viol)
 		return
 	}
